@@ -301,12 +301,15 @@ func compare(what string, a, b outcome) *vk.Verdict {
 		sa, sb := append([]string(nil), a.Errs...), append([]string(nil), b.Errs...)
 		sort.Strings(sa)
 		sort.Strings(sb)
-		if strings.Join(sa, "\x00") == strings.Join(sb, "\x00") {
-			cls := "error-order"
-			if strings.Join(notInGoFiles(a.Errs), "\x00") == strings.Join(notInGoFiles(b.Errs), "\x00") {
-				cls = "error-order:go-files" // only errors located in .go files change places
-			}
-			return vk.Bad(cls, "%s: the same %d errors are reported in a different order:\n A: %s\n B: %s", what, len(a.Errs), strings.Join(a.Errs, " | "), strings.Join(b.Errs, " | "))
+		same := strings.Join(sa, "\x00") == strings.Join(sb, "\x00")
+		if strings.Join(notInGoFiles(a.Errs), "\x00") == strings.Join(notInGoFiles(b.Errs), "\x00") {
+			// only errors located in .go files change places or come and go (a crash while one
+			// of their symbols is loaded cuts the rest short): the order in which the symbols of
+			// the package's Go files are loaded
+			return vk.Bad("go-file-symbol-order", "%s: the errors located in .go files differ (same set: %v):\n A (%d): %s\n B (%d): %s", what, same, len(a.Errs), strings.Join(a.Errs, " | "), len(b.Errs), strings.Join(b.Errs, " | "))
+		}
+		if same {
+			return vk.Bad("error-order", "%s: the same %d errors are reported in a different order:\n A: %s\n B: %s", what, len(a.Errs), strings.Join(a.Errs, " | "), strings.Join(b.Errs, " | "))
 		}
 		return vk.Bad("error-set", "%s: different errors are reported:\n A (%d): %s\n B (%d): %s", what, len(a.Errs), strings.Join(a.Errs, " | "), len(b.Errs), strings.Join(b.Errs, " | "))
 	}
@@ -381,7 +384,9 @@ func crossFile(files []SrcFile) bool {
 			for _, line := range strings.Split(f.Src, "\n") {
 				for _, kw := range []string{"func ", "type ", "var ", "const "} {
 					if rest, ok := strings.CutPrefix(line, kw); ok {
-						name := strings.FieldsFunc(rest, func(r rune) bool { return !(r == '_' || r >= '0' && r <= '9' || r >= 'a' && r <= 'z' || r >= 'A' && r <= 'Z') })
+						name := strings.FieldsFunc(rest, func(r rune) bool {
+							return !(r == '_' || r >= '0' && r <= '9' || r >= 'a' && r <= 'z' || r >= 'A' && r <= 'Z')
+						})
 						if len(name) > 0 {
 							decl[name[0]] = i
 						}
@@ -672,7 +677,7 @@ func drawCase(t *rapid.T) (Case, string) {
 }
 
 func TestPackages(t *testing.T) {
-	vk.R.Rapid(t, 1, 120, 5000, func(t *rapid.T) {
+	vk.R.Rapid(t, 1, 120, 3600, func(t *rapid.T) {
 		c, class := drawCase(t)
 		run(t, c, class)
 	})
